@@ -78,7 +78,32 @@ def handleTiming (op : String) (j : Json) : Except String Json := do
     let cs ← getArr bcSnapOfJson j "cs"
     .ok (okJson (obj [("sorted", Json.bool (sortedSnaps cs)),
                       ("grid_compatible", Json.bool (gridCompatible (grid defaultMaxDiv) cs)),
-                      ("metronome_ok", Json.bool (metronomeOk cs))]))
+                      ("metronome_ok", Json.bool (metronomeOk cs)),
+                      ("wf", Json.bool (wfChanges cs)),
+                      ("first_at_zero", Json.bool (firstAtZero cs)),
+                      ("strict", Json.bool (strictSnaps cs))]))
+  | "timing.from_offset" =>
+    let tm ← getArr bcOffOfJson j "tm"
+    .ok (okJson (listToJson bcOffToJson (fromBcOff tm)))
+  | "timing.bpmlist_tm" =>
+    -- rows are [offset, bpm, metronome]
+    let rows ← getArr (fun r => match r with
+      | Json.arr #[o, b, m] => do .ok ((← ratOf? o), (← ratOf? b), (← ratOf? m))
+      | _ => .error s!"row expected [offset, bpm, metronome]: {r}") j "rows"
+    .ok (okJson (listToJson bcOffToJson (bpmListToTimingMap rows)))
+  | "timing.queries_ok" =>
+    -- the query hypothesis of `offsets_correct`, on the queries as `Snap(...)` normalises them
+    let cs ← getArr bcSnapOfJson j "cs"
+    let qs ← getArr snapOfJson j "qs"
+    let r : Except Err Bool := do
+      let qs' ← qs.mapM (fun q => Snap.make q.measure q.beat q.met)
+      .ok (qs'.all (queryOk cs))
+    .ok (resToJson Json.bool r)
+  | "timing.snap_g" =>
+    -- `Snapper.snap` on an explicit value array (the harness sends the exact values of the doubles n/d)
+    let x ← getRat j "x"
+    let g ← getArr ratOf? j "g"
+    .ok (okJson (ratToJson (snapOn g.toArray x)))
   | "timing.is_nearest" =>
     let x ← getRat j "x"
     let y ← getRat j "y"
@@ -113,7 +138,7 @@ def handleTiming (op : String) (j : Json) : Except String Json := do
     let qs ← getArr ratOf? j "qs"
     let g := grid defaultMaxDiv
     .ok (okJson (listToJson (fun t =>
-      let i := timeInfo g t0 cs t
+      let i := timeInfo2 g t0 cs t
       obj [("before_first", Json.bool i.beforeFirst), ("on_grid", Json.bool i.onGrid), ("beat_len", ratToJson i.beatLen),
            ("abs_beat", ratToJson i.absBeat), ("tie_margin", optToJson ratToJson i.tieMargin)]) qs))
   | "timing.snap_spec" =>
